@@ -638,7 +638,7 @@ def correspond(ctx):
     else:
         oc = Corr()
         groups = c16.build_records(ocases, oc, table)
-        c16.eval_groups(ctx, oc, groups, "C10org", only=("af", "hcur", "skip", "odueng"))
+        c16.eval_groups(ctx, oc, groups, "C10org", only=("af", "hcur", "skip", "odueng", "till"))
         c.mismatches += oc.mismatches
         g = {name: lst for name, lst, _, _, _ in groups}
         for _, cs_, r in g["af"]:
@@ -660,7 +660,7 @@ def correspond(ctx):
     else:
         hc = Corr()
         hgroups = c16.build_records(hcases, hc, None)
-        c16.eval_groups(ctx, hc, hgroups, "C10hs", only=("hdec", "hdec2", "hcur", "rot"))
+        c16.eval_groups(ctx, hc, hgroups, "C10hs", only=("hdec", "hdec2", "hcur", "rot", "till"))
         c.mismatches += hc.mismatches
         c.dist["fixed-sowing+automatic-harvest runs"] = len([x for x in hcases if x.get("final")])
         c.dist["second-pass sowing offsets"] = sorted(x["second_pass"]["offset"] for x in hcases if x.get("second_pass"))
@@ -862,6 +862,28 @@ def oracle(ctx, search):
                 continue
             sowlog = [z for (z, k, p) in cs["log"] if k == "sowing"]
             harlog = [z for (z, k, p) in cs["log"] if k == "harvest"]
+            # tillage with automatic harvest: dated before sowing -> carried out the day after its date; dated inside the stand ->
+            # it waits for the harvest and is carried out 2 or 3 days after it (put on harvest + 1, or still 2 days ahead)
+            tlog = [z for (z, k, p) in cs["log"] if k == "tillage"]
+            want_t = []
+            for (d, dep, ty, where, k) in cs.get("till_plan", []):
+                hz = harlog[k - 1] if k - 1 < len(harlog) else None
+                prev_h = cs["B"] if k == 1 else (harlog[k - 2] if k - 2 < len(harlog) else None)
+                if where == "before" and prev_h is not None and prev_h < d and d + 1 <= cs["E"]:
+                    want_t.append((d + 1, d + 1, "before sowing of entry %d, dated %s" % (k, numday(d))))
+                elif where == "inside" and hz is not None and hz + 3 <= cs["E"]:
+                    want_t.append((hz + 2, hz + 3, "inside the stand of entry %d (dated %s, harvest %s)" % (k, numday(d), numday(hz))))
+                elif where == "inside" or prev_h is None or prev_h >= d:
+                    want_t = None
+                    break
+            if want_t is not None and cs.get("till_plan"):
+                checked += 1
+                ok = len(tlog) == len(want_t) and all(lo <= z <= hi for z, (lo, hi, _) in zip(tlog, want_t))
+                if not ok:
+                    fails.append(Fail(key="tillage-date:%s:%s" % (c16.sws_of(cs), cs["name"]),
+                                      what="tillage carried out on %s; the tillage file with automatic harvest demands %s"
+                                      % ([str(numday(z)) for z in tlog], [(str(numday(lo)), str(numday(hi)), w) for lo, hi, w in want_t]),
+                                      case=cs["name"], switches=c16.sws_of(cs), crops=[(a, str(b), str(c_)) for a, b, c_, _ in cs["crops"]]))
             for k in range(1, len(cs["crops"])):
                 code, s_, h_, w_ = cs["crops"][k]
                 prev_h = cs["B"] if k == 1 else (harlog[k - 2] if k - 2 < len(harlog) else None)
